@@ -19,9 +19,9 @@ use vh::security::{base64_encode, derive_key, MeetingSecret, SigningKey};
 use vh::synchronisation::peer_inbound_service::{LocalPeerService, QueryService};
 use vh::synchronisation::{Answer, IdentityAnswer, Query, QueryProtocol, RemoteEvent};
 
-struct Party {
-    peer: Peer,
-    node: Node, // its sys.Peer row
+pub struct Party {
+    pub peer: Peer,
+    pub node: Node, // its sys.Peer row
 }
 
 async fn party(name: &str, user: &str, config: &Configuration) -> Party {
@@ -130,7 +130,7 @@ fn user_of(parties: &HashMap<String, Party>, key: &[u8]) -> String {
     "?".to_string()
 }
 
-async fn manager(p: &Party, app: &str, config: &Configuration) -> (PeerManager, mpsc::Receiver<PeerConnectionMessage>) {
+pub async fn manager(p: &Party, app: &str, config: &Configuration) -> (PeerManager, mpsc::Receiver<PeerConnectionMessage>) {
     let (ps_send, ps_recv) = mpsc::channel::<PeerConnectionMessage>(64);
     let peer_service = PeerConnectionService { sender: ps_send };
     let endpoint = vh::network::endpoint::DiscretEndpoint::start(peer_service, 1024 * 64, &p.peer.vkey).await.expect("endpoint");
